@@ -63,11 +63,41 @@ def run(ctx):
                            "order": [s["pos"] for s in rec["stores"]],
                            "storeerr": rec["storeerr"], "fetch": rec["fetch"],
                            "hashes": case["hashes"]})
+    beyond_property(ctx)
     for rec, case in cases[:2]:
         ctx.sample({"cfg": rec["cfg"], "strategy": rec["strategy"],
                     "order": [s["pos"] for s in rec["stores"]],
                     "fetch": [[f["pos"], f["st"], f.get("cls", len(f["data"]))] for f in rec["fetch"]][:8],
                     "verdict": verdicts[case["tid"]][1]})
+
+
+def beyond_property(ctx):
+    """Specification growth (DESIGN 9), DRIFT only: two write sessions on one dataset
+    and duplicate stores (spec/ShardSessions.tla).  TLC proves the design facts
+    (what stays visible after the second close; files stay well formed) and exports
+    histories; the real accessor is replayed and compared with the prediction."""
+    ctx.mc("MC_ShardSessions", workers=8)
+    recs = ctx.export("Gen_ShardSessions", simulate="num=%d" % ctx.pick(250, 4000),
+                      extra=["-depth", "9", "-seed", str(ctx.seed + 5)], workers=1)
+    behs = {}
+    for r in recs:
+        behs[r[1]] = json.loads(r[1])
+    work = ctx.scratch("verif_sess_")
+    agree = 0
+    keys = sorted(behs)
+    if ctx.quick and len(keys) > 400:
+        keys = ctx.rng.sample(keys, 400)
+    for k in keys:
+        b = behs[k]
+        pred_dups = [e[2] for e in b["hist"] if e[0] == "dup"]
+        obs = sd.run_sessions(work, b["cfg"], b["hist"], salt=ctx.seed)
+        ok = obs["dups"] == pred_dups and obs["visible"] == sorted(b["visible"])
+        agree += ok
+        if not ok:
+            ctx.note_drift("design:SessionVisibility", {"cfg": b["cfg"], "hist": b["hist"],
+                                                        "predicted": {"dups": pred_dups, "visible": sorted(b["visible"])},
+                                                        "observed": obs})
+    ctx.notes["beyond_property_multi_session"] = {"behaviours_replayed": len(keys), "agree_with_design": agree}
 
 
 replay = c04.replay
